@@ -173,12 +173,12 @@ def gen_case(rng, nmax=120, malformed=False):
         # D + slope; keep the zero-dispersion frequency outside of the comb (beta2 of a pair must not cancel)
         fd['disp'] = ['l', rng.uniform(8e-6, 2.5e-5),
                       rng.choice([0.06e3, 0.058e3, rng.uniform(0.02e3, 0.09e3), 0.0, 0.0, 1e-9, -1e-9, -0.03e3, 0])]
+    r = rng.random()
+    fd['area'] = None if r < 0.4 else (['a', rng.uniform(50e-12, 130e-12)] if r < 0.75 else ['g', rng.uniform(0.7e-3, 2.2e-3)])
     if not malformed and len(chans) >= 2 and rng.random() < 0.15:
         z = zero_crossing_dispersion(rng, fd, chans)
         if z:
             fd['disp'] = z
-    r = rng.random()
-    fd['area'] = None if r < 0.4 else (['a', rng.uniform(50e-12, 130e-12)] if r < 0.75 else ['g', rng.uniform(0.7e-3, 2.2e-3)])
     raman_flag = False
     if not malformed and len(chans) <= 40 and rng.random() < 0.25:
         # Raman-amplified span (needs the Raman solver) or a plain fibre with inter-channel Raman scattering on
@@ -190,6 +190,14 @@ def gen_case(rng, nmax=120, malformed=False):
                                       rng.choice(['counterprop', 'counterprop', 'coprop'])] for _ in range(npump)]}
             fd['att_in'] = rng.choice([rng.uniform(0.3, 4), rng.uniform(0.3, 4), 0])
             fd['length_km'] = rng.uniform(20, 160)
+            if isinstance(fd['loss'], dict):       # the Raman solver needs the loss at the pump frequencies too
+                top = max(pf for _, pf, _ in fd['raman']['pumps']) + 1e12
+                if fd['loss']['frequency'][-1] < top:
+                    fd['loss'] = {'frequency': fd['loss']['frequency'] + [top], 'value': fd['loss']['value'] + [rng.uniform(0.2, 0.3)]}
+                # ... and at the reference frequency (RamanFiber reports its gain against Fiber.loss)
+                fref = 299792458.0 / 1550e-9 if not fd['ref'] else (299792458.0 / fd['ref'][1] if fd['ref'][0] == 'w' else fd['ref'][1])
+                if fref < fd['loss']['frequency'][0]:
+                    fd['loss'] = {'frequency': [fref - 1e11] + fd['loss']['frequency'], 'value': [rng.uniform(0.2, 0.3)] + fd['loss']['value']}
     return {'fiber': fd, 'raman_flag': raman_flag, 'chan': chans, 'order': 'shuffled' if rng.random() < 0.3 and len(chans) > 1 else 'sorted',
             'perm_seed': rng.randint(0, 10 ** 9), 'k': rng.choice([2.0, 2.0, 0.5, rng.uniform(0.25, 4)]),
             'pick': rng.randint(0, len(chans) - 1), 'raise_db': rng.uniform(0.1, 6)}
